@@ -30,10 +30,20 @@ Definition parse_bop (s : str) : option bop :=
   match split_on_fast c_comma s [] with
   | [[115]; sd; r; c; l; o; a] =>
       Some (BStroke {| s_side := parse_side sd; s_row := str_to_Z r; s_col := str_to_Z c; s_len := str_to_Z l;
-                       s_obj := N.to_nat (digits_to_N o); s_attrs := a |})
+                       s_obj := N.to_nat (digits_to_N o) |})
   | [[82]] => Some BRead
   | [[79]] => Some BReopen
   | _ => None
+  end.
+
+(* the attributes of the caller's Border objects: those given where the object is first used *)
+Fixpoint objs_of (ops : list str) (n : nat) : attrs :=
+  match ops with
+  | [] => []
+  | o :: r => match split_on_fast c_comma o [] with
+              | [[115]; _; _; _; _; oi; a] => if Nat.eqb (N.to_nat (digits_to_N oi)) n then a else objs_of r n
+              | _ => objs_of r n
+              end
   end.
 
 Definition all_keys (nr nc : Z) : list key :=
@@ -81,18 +91,18 @@ Fixpoint collect_strokes (ops : list str) : list stroke :=
               end
   end.
 
-Definition lww_snapshot (nr nc : Z) (h : list stroke) : str :=
-  let m := lww nr nc h in
+Definition lww_snapshot (objs : nat -> attrs) (nr nc : Z) (h : list stroke) : str :=
+  let m := lww objs nr nc h in
   join [c_comma] (map (fun k => show_oattrs (m (edge_of k))) (all_keys nr nc)).
 
 Definition handle (ln : list N) : list N :=
   match fields_fast ln with
   | [[98;114;100]; nr; nc; mx; ops] =>
-      show_result (run_ops bstep (split_on_fast c_semi ops []) (empty_table (str_to_Z nr) (str_to_Z nc) (str_to_Z mx)) [])
+      show_result (run_ops (bstep (objs_of (split_on_fast c_semi ops []))) (split_on_fast c_semi ops []) (empty_table (str_to_Z nr) (str_to_Z nc) (str_to_Z mx)) [])
   | [[112;105;110]; nr; nc; mx; ops] =>
-      show_result (run_ops Pinned.bstep (split_on_fast c_semi ops []) (empty_table (str_to_Z nr) (str_to_Z nc) (str_to_Z mx)) [])
+      show_result (run_ops (Pinned.bstep (objs_of (split_on_fast c_semi ops []))) (split_on_fast c_semi ops []) (empty_table (str_to_Z nr) (str_to_Z nc) (str_to_Z mx)) [])
   | [[108;119;119]; nr; nc; ops] =>
-      lww_snapshot (str_to_Z nr) (str_to_Z nc) (collect_strokes (split_on_fast c_semi ops []))
+      lww_snapshot (objs_of (split_on_fast c_semi ops [])) (str_to_Z nr) (str_to_Z nc) (collect_strokes (split_on_fast c_semi ops []))
   | [[100;116;121]; a] => let '(t, c) := dirty_flags a in [if t then 49 else 48; if c then 49 else 48]
   | [[99;111;108]; v] => N_to_str (colour_roundtrip (digits_to_N v))
   | _ => [63]
